@@ -60,6 +60,7 @@ fn observe(path: &str, is: &[Instruction], pr: &mut Proj) -> Sexp {
             tagged("eq", vec![boolean(rebuilt == p)]),
             tagged("used", vec![used]),
             tagged("rused", vec![rused]),
+            pr.key_report(),
         ],
     )
 }
@@ -100,6 +101,20 @@ fn run(ctx: &mut Ctx) {
              "DEFFRAME 0 1 \"cz\":\n\tHARDWARE-OBJECT: \"q0_q1\"", "DEFFRAME 0 \"rf\":\n\tINITIAL-FREQUENCY: 2000000000\n\tDIRECTION: \"tx\""],
         vec!["DEFGATE FOO:\n\t1, 0\n\t0, 1", "DEFWAVEFORM wf:\n\t1, 0.5, 0.25", "FOO 3", "DEFGATE FOO:\n\t0, 1\n\t1, 0", "DEFWAVEFORM wf:\n\t0.5i, 1"],
         vec!["PRAGMA EXTERNAL foo", "PRAGMA extern foo", "PRAGMA EXTERN foo"],
+        // calibrations that differ only in modifiers / parameters' syntax / qubit kind: all distinct keys
+        vec!["DEFCAL RX(pi) 0:\n\tX 30", "DEFCAL DAGGER RX(pi) 0:\n\tX 31"],
+        vec!["DEFCAL DAGGER X 0 1:\n\tX 23", "DEFCAL CONTROLLED X 0 1:\n\tX 24", "DEFCAL X 0 1:\n\tX 22"],
+        vec!["DEFCAL X 0 1:\n\tX 22", "DEFCAL DAGGER X 0 1:\n\tX 23", "DEFCAL DAGGER DAGGER X 0 1:\n\tX 25",
+             "DEFCAL DAGGER CONTROLLED X 0 1:\n\tX 26", "DEFCAL CONTROLLED DAGGER X 0 1:\n\tX 27", "DEFCAL FORKED X 0 1:\n\tX 28"],
+        vec!["DEFCAL RX(pi/2) 0:\n\tPULSE 0 \"rf\" wf", "DEFCAL RX(1.5707963267948966) 0:\n\tX 32", "DEFCAL RX(2*pi/4) 0:\n\tX 33",
+             "DEFCAL RX(0.5*pi) 0:\n\tX 34", "DEFCAL RX(%t) 0:\n\tSHIFT-PHASE 0 \"rf\" %t", "DEFCAL RX(%u) 0:\n\tX 35", "DEFCAL RX 0:\n\tX 37", "DEFCAL RX(pi, pi) 0:\n\tX 36"],
+        vec!["DEFCAL X 0:\n\tY 7", "DEFCAL X q:\n\tPULSE q \"rf\" wf", "DEFCAL X r:\n\tX r", "DEFCAL X 0 q:\n\tX 38", "DEFCAL X q 0:\n\tX 39",
+             "DEFCAL X q r:\n\tX 40", "DEFCAL X 0 1:\n\tX 22", "DEFCAL X 1 0:\n\tX 41"],
+        vec!["DEFCAL MEASURE 0 addr:\n\tNOP", "DEFCAL MEASURE 0:\n\tX 43", "DEFCAL MEASURE 0 dest:\n\tX 44", "DEFCAL MEASURE q:\n\tX 45",
+             "DEFCAL MEASURE q addr:\n\tNOP", "DEFCAL MEASURE r addr:\n\tX 46", "DEFCAL MEASURE!mid 0 addr:\n\tX 47", "DEFCAL MEASURE!mid 0:\n\tX 48",
+             "DEFCAL MEASURE!end 0 addr:\n\tX 49"],
+        vec!["DEFFRAME 0 1 \"cz\":\n\tHARDWARE-OBJECT: \"q0_q1\"", "DEFFRAME 1 0 \"cz\":\n\tDIRECTION: \"tx\"", "DEFFRAME 0 \"cz\":\n\tDIRECTION: \"tx\"",
+             "DEFFRAME 0 1 \"rf\":\n\tDIRECTION: \"tx\""],
     ];
     for h in &corpus {
         let is: Vec<Instruction> = h.iter().map(|t| one(t)).collect();
@@ -117,6 +132,8 @@ fn run(ctx: &mut Ctx) {
         "PRAGMA EXTERN \"OCTET\"",
         "DEFCAL X 0:\n\tY 7",
         "DEFCAL X 0:\n\tY 13",
+        "DEFCAL DAGGER X 0:\n\tY 14",
+        "DEFCAL CONTROLLED X 0:\n\tY 15",
         "DEFFRAME 0 \"rf\":\n\tDIRECTION: \"tx\"",
         "X 0",
         "PRAGMA hello \"w\"",
